@@ -5,6 +5,7 @@ import queue
 from vlib import core, prog, physics, h5oracle
 
 ASSUME = [
+    "two files in 32 are 'scale' cases: a grid of 513-1030 cells, and 260-300 buckets with individual currents (a few steps each)",
     "a third of the files use machine parameters away from their defaults (phase space size, revolution frequency, beam energy and spread, RF voltage, bending radius, cutoff frequency, alpha1/alpha2)",
     "a quarter of the single-bunch files come from runs started from a crafted start file (two off-centre blobs), mostly without renormalisation",
     "one file in eight comes from a run interrupted by a real SIGINT at a random interrupt point (guarded hook); its final step is the one the hook's log implies (set-up: 0, inside a step: step+1)",
@@ -131,6 +132,16 @@ def gen_case(seed, i, tier):
         # record 0 must describe *that* distribution, whatever the renormalisation setting
         o["_startfile"] = True
         o["RenormalizeCharge"] = r.choice([-1, -1, 0, 3])
+    if i % 32 == 9:
+        # scale: a grid far beyond the everyday sizes (blocked / pairwise loops over more than 512 cells), a handful of steps
+        o = dict(GridSize=r.choice([513, 640, 1024, 1030]), StepsPerTs=1000, rotations=0.004, outstep=2, SavePhaseSpace=1,
+                 RenormalizeCharge=r.choice([-1, 0, 2]), BunchCurrent=[round(r.loguniform(2e-4, 2e-3), 7)], padding=2.0,
+                 PhaseSpaceShiftX=round(r.uniform(-30, 30), 1), PhaseSpaceShiftY=round(r.uniform(31, 60), 1), _scale="grid")
+    if i % 32 == 25:
+        # scale: several hundred filled buckets, each with its own current (small grid, buckets two phase-space widths apart)
+        nbk = r.choice([260, 270, 300])
+        o = dict(GridSize=32, StepsPerTs=1000, rotations=0.004, outstep=2, SavePhaseSpace=r.choice([0, 2]), HarmonicNumber=2000,
+                 BunchCurrent=[round(r.loguniform(1e-5, 6e-5), 9) if (k % 37 != 11) else 0.0 for k in range(nbk)], _scale="buckets")
     return o
 
 
@@ -143,7 +154,7 @@ def run_case(args):
     try:
         run_opts = {k: v for k, v in o.items() if not k.startswith("_")}
         P = physics.derive(run_opts)
-        if P["nbuckets"] > 1 and (P["spacing_bins"] is None or P["spacing_bins"] < P["n"] or P["wake_N"] > 70000):
+        if P["nbuckets"] > 1 and not o.get("_scale") and (P["spacing_bins"] is None or P["spacing_bins"] < P["n"] or P["wake_N"] > 70000):
             return dict(i=i, skip="filling pattern would overlap or transform too long")
         if o.get("StepsPerRevolution"):
             # keep steps*T away from an integer
@@ -203,6 +214,7 @@ def run_case(args):
         out["interrupted"] = steps_done is not None
         out["from_start_file"] = bool(o.get("_startfile"))
         out["machine"] = bool(o.get("_machine"))
+        out["scale"] = o.get("_scale")
         ntrk = o.get("_tracking", 0)
         if h["/Particles/data"].shape[1:] != (ntrk, 2):
             rep.v("C10:particles_shape", "particle dataset does not have one row per tracked particle", shape=list(h["/Particles/data"].shape), particles=ntrk)
@@ -246,8 +258,11 @@ def run(ctx):
             ctx.ev("files_of_runs_started_from_a_file")
         if res.get("machine"):
             ctx.ev("files_with_non_default_machine_parameters")
+        if res.get("scale"):
+            ctx.ev("files_at_scale." + res["scale"])
         ctx.ev("records_checked", res["records"])
         res["rep"].merge_into(ctx, w)
         ctx.sample(dict(options=res["opts"], records=res["records"]))
     ctx.min_events = {"files_checked": max(10, n // 2), "projections_compared": 100, "moment_records_compared": 200,
-                      "wake_records_compared": 30, "files_of_runs_started_from_a_file": max(3, n // 12), "files_with_non_default_machine_parameters": max(5, n // 6), "csr_records_compared": 100, "unit_attributes_checked": 200}
+                      "wake_records_compared": 30, "files_of_runs_started_from_a_file": max(3, n // 12), "files_with_non_default_machine_parameters": max(5, n // 6), "csr_records_compared": 100, "unit_attributes_checked": 200,
+                      "files_at_scale.grid": 1, "files_at_scale.buckets": 1}
